@@ -17,7 +17,7 @@ import (
 // on, until a K is reached at which the statement completes.
 func init() {
 	core.Extend("C08", "family cancel: 17 data-changing statements (every kind, file tables of 40 and 10 records, a temporary table) x cancellation becoming visible at the K-th poll of the context for every K until the statement completes; "+
-		"after a cancelled statement (and some further evaluation) every table reads as before, and a COMMIT leaves the files as they were", c08CancelRun)
+		"the transaction holds earlier uncommitted changes of all three tables; after a cancelled statement (and some further evaluation) every table reads as before it, and a COMMIT writes exactly the earlier changes", c08CancelRun)
 }
 
 type c08PollCtx struct {
@@ -75,6 +75,24 @@ func c08CancelFiles() map[string]string {
 }
 
 const c08CancelPreamble = "DECLARE tmp VIEW (k, n); INSERT INTO tmp SELECT k, a FROM t WHERE a <= 20; COMMIT;"
+
+// earlier, uncommitted changes of the same transaction: a cancelled statement must not lose them either
+const c08CancelEarlier = "UPDATE t SET b = 'pre' WHERE a = 1; UPDATE u SET w = 0 WHERE k = 'k4'; UPDATE tmp SET n = -1 WHERE k = 'k2';"
+
+var c08CancelBaseline map[string]string // the files after the earlier changes alone were committed
+
+func c08CancelBase(dir string) map[string]string {
+	if c08CancelBaseline == nil {
+		drv.ClearDir(dir)
+		drv.WriteFiles(dir, c08CancelFiles())
+		env := drv.New(dir)
+		env.Tx.Flags.SetQuiet(true)
+		env.Exec(c08CancelPreamble + " " + c08CancelEarlier + " COMMIT;")
+		env.Close()
+		c08CancelBaseline = drv.DirSnapshot(dir)
+	}
+	return c08CancelBaseline
+}
 const c08CancelRead = "SELECT * FROM t; SELECT * FROM u; SELECT * FROM tmp;"
 
 func c08ReadKey(env *drv.Env) (string, error) {
@@ -100,14 +118,14 @@ type c08CancelPayload struct {
 
 // c08CancelOne runs one (statement, K); it returns false when the statement completed (no further K needed).
 func c08CancelOne(c *core.Ctx, dir string, sql string, k int64) bool {
-	files := c08CancelFiles()
+	files := c08CancelBase(dir)
 	drv.ClearDir(dir)
-	drv.WriteFiles(dir, files)
+	drv.WriteFiles(dir, c08CancelFiles())
 	env := drv.New(dir)
 	defer env.Close()
 	env.Tx.Flags.SetQuiet(true)
 	payload := c08CancelPayload{"cancel", sql, k}
-	if r := env.Exec(c08CancelPreamble); r.Err != nil || r.Panic != nil {
+	if r := env.Exec(c08CancelPreamble + " " + c08CancelEarlier); r.Err != nil || r.Panic != nil {
 		c.Incomplete(fmt.Sprintf("cancel family: preamble failed: %v %v", r.Err, r.Panic))
 		return false
 	}
